@@ -20,8 +20,8 @@ HASHSEEDS = (1, 2)  # thorough tier: the sweep is repeated under these PYTHONHAS
 from curies import remap_uri_prefixes, rewire  # noqa: E402
 from curies.reconciliation import TransitiveError  # noqa: E402
 
-URI_NAMES = {0: ["x", "y", "z", "x1", "n", "m"], 1: ["x", "y", "z", "y1", "y2", "n", "m"], 2: ["x", "y", "z", "x1", "n", "m"]}
-CURIE_NAMES = {0: ["a", "b", "c", "a1", "b1", "k", "l"], 1: ["a", "b", "c", "a1", "a2", "b1", "k"], 2: ["a", "b", "c", "a1", "b1", "k", "l"]}
+URI_NAMES = {0: ["x", "y", "z", "x1", "n", "m"], 1: ["x", "y", "z", "y1", "y2", "n", "m"], 2: ["x", "y", "z", "x1", "n", "m"], 3: ["d", "y", "z", "d1", "n", "m"]}
+CURIE_NAMES = {0: ["a", "b", "c", "a1", "b1", "k", "l"], 1: ["a", "b", "c", "a1", "a2", "b1", "k"], 2: ["a", "b", "c", "a1", "b1", "k", "l"], 3: ["", "b", "c", "dd", "b1", "k", "l"]}
 
 
 def max_pairs(tier):
@@ -31,7 +31,7 @@ def max_pairs(tier):
 def units(tier, seed):
     us = []
     for op in ("remap_uri", "rewire"):
-        for b in range(3):
+        for b in range(4):
             keys = URI_NAMES[b] if op == "remap_uri" else CURIE_NAMES[b]
             for n in range(1, max_pairs(tier) + 1):
                 for ch in chunks(list(it.combinations(keys, n)), 12 if n >= 3 else 2):
@@ -161,10 +161,10 @@ def replay(case):
 def describe(tier):
     return {
         "level": "model_checking",
-        "rule": f"remap_uri_prefixes and rewire x 3 base converters x every injective dictionary of 1..{max_pairs(tier)} pairs (keys: canonical / "
+        "rule": f"remap_uri_prefixes and rewire x 4 base converters (one with the empty canonical prefix) x every injective dictionary of 1..{max_pairs(tier)} pairs (keys: canonical / "
         "synonym / unknown names of the relevant side; values: canonical, synonym, other records' and unknown URI prefixes) in every key order, "
         "each result fed once more into the same operation; distinct_nontrivial = distinct result states differing from the base",
-        "bounds": {"pairs": max_pairs(tier), "bases": 3},
+        "bounds": {"pairs": max_pairs(tier), "bases": 4},
         "exhaustive": True,
         "assumptions": ["when several keys of the dictionary hit one record, any one of the mapped values may be the one applied",
                         "injective mappings only (as the property quantifies)"],
